@@ -370,6 +370,7 @@ def sample_from(chk, name, n=3):
 def c04(chk):
     chk.extract(("newtypes", "conversions", "features", "controllerNumbers"))
     chk.proofs(["Midi.Props.C04", "Midi.Props.C04S"])
+    chk.translated(['TConv'])
     exe = chk.cargo_build("std")
     if exe is not None:
         run_corpus(chk, exe)
@@ -406,6 +407,7 @@ def c04(chk):
 def c05(chk):
     chk.extract(("newtypes", "conversions"))
     chk.proofs(["Midi.Props.C05"])
+    chk.translated(['TConv'])
     exe = chk.cargo_build("std")
     if exe is None:
         return
